@@ -242,7 +242,7 @@ func generate(rng *rand.Rand) Case {
 			case 3:
 				if sysName == "NPM" {
 					// Other tags, some of which equal "latest" up to letter case only.
-					op.Tags = gen.Pick(rng, "next,beta", "next,beta", "Latest", "LATEST,next", "current,lts", "not-latest")
+					op.Tags = gen.Pick(rng, "next,beta", "next,beta", "Latest", "LATEST,next", "current,lts", "not-latest", "next,latest-2", "beta,latest-rc,x", "latest-2")
 				}
 			}
 			nreq := rng.Intn(4)
@@ -390,12 +390,12 @@ func history(r *ev.Run, c Case) {
 			}
 		case "version-as-requirement-key":
 			r.Count("read:other-key-type", 1)
-			if got, err := lc.Version(ctx, vk(sys, op.Name, op.Version, resolve.Requirement)); err == nil {
+			if got, err := lc.Version(ctx, vk(sys, op.Name, op.Version, resolve.Requirement)); err == nil || !errors.Is(err, resolve.ErrNotFound) {
 				bad(i, "version:found-under-other-key-type", fmt.Sprintf("Version of the Requirement-typed key returned %v; only Concrete keys were ever added", got))
 				return
 			}
 		case "requirements-as-requirement-key":
-			if got, err := lc.Requirements(ctx, vk(sys, op.Name, op.Version, resolve.Requirement)); err == nil {
+			if got, err := lc.Requirements(ctx, vk(sys, op.Name, op.Version, resolve.Requirement)); err == nil || !errors.Is(err, resolve.ErrNotFound) {
 				bad(i, "requirements:found-under-other-key-type", fmt.Sprintf("Requirements of the Requirement-typed key returned [%s]; only Concrete keys were ever added", showReqs(got)))
 				return
 			}
@@ -403,8 +403,8 @@ func history(r *ev.Run, c Case) {
 			got, err := lc.Versions(ctx, pk(sys, op.Name))
 			if !m.pkgs[op.Name] {
 				r.Count("read:versions:notfound", 1)
-				if err == nil {
-					bad(i, "versions:found-never-mentioned", fmt.Sprintf("returned %v for a package never added nor required", got))
+				if err == nil || !errors.Is(err, resolve.ErrNotFound) {
+					bad(i, "versions:found-never-mentioned", fmt.Sprintf("returned %v, %v for a package never added nor required (want an error that is ErrNotFound)", got, err))
 					return
 				}
 				continue
@@ -443,8 +443,8 @@ func history(r *ev.Run, c Case) {
 			e := m.vers[op.Name][op.Version]
 			if e == nil {
 				r.Count("read:requirements:notfound", 1)
-				if err == nil {
-					bad(i, "requirements:found-never-added", fmt.Sprintf("returned [%s] for a version never added", showReqs(got)))
+				if err == nil || !errors.Is(err, resolve.ErrNotFound) {
+					bad(i, "requirements:found-never-added", fmt.Sprintf("returned [%s], %v for a version never added (want an error that is ErrNotFound)", showReqs(got), err))
 					return
 				}
 				continue
@@ -460,8 +460,8 @@ func history(r *ev.Run, c Case) {
 			q := vk(sys, op.Name, op.Version, resolve.Requirement)
 			got, err := lc.MatchingVersions(ctx, q)
 			if !m.pkgs[op.Name] {
-				if err == nil {
-					bad(i, "matching:found-never-mentioned", fmt.Sprintf("returned %v for a package never added nor required", got))
+				if err == nil || !errors.Is(err, resolve.ErrNotFound) {
+					bad(i, "matching:found-never-mentioned", fmt.Sprintf("returned %v, %v for a package never added nor required (want an error that is ErrNotFound)", got, err))
 					return
 				}
 				continue
